@@ -274,16 +274,18 @@ def _run_hostile(hostile, placement, need_fo=False, probes=True, allowed=(), wan
     pre = []
     if placement in ("registered", "connected", "between"):
         pre.append(W.register(b"ctx-regi"))
+    fo_index = None
     if placement == "connected" or need_fo:
         if not pre:
             pre.append(W.register(b"ctx-regi"))
+        fo_index = len(pre)
         pre.append(R.send_rr_data(SESSION, R.forward_open(T_O_connection_ID=CONN_T_O)))
     if placement == "between":
         pre.append(W.send_rr_data(SESSION, W.write_tag(W.tag_path("a"), W.INT, [1, 1, 1, 1]), b"ctx-wr-a"))
-    for f in pre:
+    for fi, f in enumerate(pre):
         r = ss.feed(f)
         fed += len(f)
-        if f is pre[-1] and (placement == "connected" or need_fo):
+        if fi == fo_index:
             try:
                 conn_id = R.decode_reply_frame(r[0])["cip"]["O_T_connection_ID"]
             except Exception as exc:
